@@ -779,6 +779,73 @@ def gen_until_react(rng, cid):
     return c
 
 
+def gen_until_join(rng, cid):
+    """a split plan whose run(until=...) target is a PROCESS, i.e. its termination event, with the joining left to the very instant
+    at which the target ends: the target P sleeps until T (in one or two hops) and ends - mostly with nobody waiting for it yet;
+    *participants* are resumed at T as well (one or two hops, started before or after P, so that they come before or after P's end
+    in that instant): late joiners that yield P, probe it, or build a condition over it; bystanders that only log; now and then an
+    early waiter that yields P from the start.  Everybody goes on into later instants (a second nap and a log), so that a
+    same-instant swap carries on.  The plan reaches P's slot first (a few step()s, or a numeric stop before T) and then calls
+    run(until=P); more pieces may follow.  C03 "unaffected by where it is stopped": being the until-target of a run must not
+    change the order in which P's end, the joiners and the bystanders of that instant take effect (`oracle_split`)."""
+    c = Case(cid, 'plan')
+    T = rng.choice([0.5, 1, 1, 2, 3])
+
+    def hops(first_slot):
+        """sleep until T: one timeout, or two (the second one is created later than every one-hop timeout of the others)"""
+        if rng.random() < 0.5:
+            return [('timeout', first_slot, T, None), ('yield', first_slot, 0)]
+        a = rng.choice([0.25, 0.5] if T > 0.5 else [0.25])
+        return [('timeout', first_slot, a, None), ('yield', first_slot, 0), ('timeout', first_slot + 1, T - a, None), ('yield', first_slot + 1, 0)]
+
+    main = []
+    c.progs.append(main)
+    c.mains.append((0, 1))
+    # program 1: the target
+    end = rng.random()
+    tail = [('ret', val(rng))] if end < 0.8 else ([('raise', rng.choice(EXCS), rng.randint(0, 9))] if end < 0.9 else [])
+    c.progs.append(hops(10) + ([('log', 70)] if rng.random() < 0.5 else []) + tail)
+    names = 800
+    late_start = rng.random() < 0.6          # the participants are started by `main` after P (else: main processes, started before P)
+    if not late_start or rng.random() < 0.5:
+        main.append(('spawn', 0, 1, names))
+    roles = [rng.choice(['join', 'join', 'by', 'by', 'probe', 'cond']) for _ in range(rng.randint(2, 5))]
+    if 'join' not in roles:
+        roles[rng.randrange(len(roles))] = 'join'
+    if rng.random() < 0.2:
+        roles.insert(rng.randrange(len(roles) + 1), 'early')
+    for j, role in enumerate(roles):
+        s = 30 + 4 * j
+        prog = [] if role == 'early' else hops(s)
+        if role != 'early' and rng.random() < 0.1:
+            prog += [('timeout', s + 2, rng.choice([0, 0.5]), None), ('yield', s + 2, 0)]       # a little after P's end
+        if role in ('join', 'early'):
+            prog += [('yield', 0, rng.choice([0, 0, 0, 2, 3])), ('log', 40 + j)]
+        elif role == 'probe':
+            prog += [('probe', 0, 20 + j)] + ([('yield', 0, rng.choice([0, 2]))] if rng.random() < 0.5 else []) + [('log', 40 + j)]
+        elif role == 'cond':
+            cs = rng.choice([s + 3, 60 + 2 * j])         # odd slot: AllOf/AnyOf(env, operands); even slot: written `P & x` / `P | x`
+            prog += [(rng.choice(['allof', 'anyof']), cs, 0, s), ('yield', cs, rng.choice([0, 2])), ('log', 40 + j)]
+        else:
+            prog += [('log', 40 + j)]
+        prog += [('timeout', s + 2, rng.choice([0.5, 1, 1, 2]), None), ('yield', s + 2, 0), ('log', 50 + j)]
+        c.progs.append(prog)
+        if late_start:
+            names += 1
+            main.append(('spawn', 20 + j, len(c.progs) - 1, names))
+        else:
+            c.mains.append((len(c.progs) - 1, 2 + j))
+    if not any(i[0] == 'spawn' and i[1] == 0 for i in main):
+        main.insert(rng.randrange(len(main) + 1), ('spawn', 0, 1, 800))      # P started among / after the participants
+    main += [('timeout', 6, T + rng.choice([1, 3]), 7), ('yield', 6, 0), ('log', 69)]
+    first = rng.choice([('S', rng.randint(1, 3 + len(roles))), ('S', 1), ('T', T / 2), ('T', 0.125)])
+    c.plan = [first, ('E', 0)]
+    for _ in range(rng.choice([0, 0, 1, 1, 2])):
+        c.plan.append(rng.choice([('S', rng.randint(1, 4)), ('T', float(T + rng.choice([0.5, 1, 1.5]))), ('E', 20 + rng.randrange(len(roles))),
+                                  ('E', 30 + 4 * rng.randrange(len(roles)) + 2), ('E', 6)]))
+    return c
+
+
 # ------------------------------------------------------------------------------------------------
 # interrupts (C04): victims with long waits and the five handler behaviours, interrupters that hit them at
 # chosen instants (before, exactly at, after the victim's target is due; right after spawn; several at once),
